@@ -97,6 +97,7 @@ def entry (s : St) (x : Nat) (err : Bool) (arg : Nat) : St × String :=
 /-- oracle bookkeeping for one reload of a module: per resource, was the list left unchanged (inert rules aside),
     and does the `NoSteal` hypothesis hold -/
 def judgeReload {R S} [DecidableEq R] (K : Calc R S) (valid : R → Bool) (res : R → Nat) (inert : R → Bool)
+    (warmKey : Bool)
     (m : Mgr R S) (raw : List (Nat × List R)) (rules : List R) (only : Option Nat) (fl : List (Nat × Flags)) :
     List (Nat × Flags) × List (Nat × List R) :=
   let xs := match only with
@@ -109,7 +110,8 @@ def judgeReload {R S} [DecidableEq R] (K : Calc R S) (valid : R → Bool) (res :
     let same := decide (n.filter (!inert ·) = o.filter (!inert ·))
     let f := if !same then { f with unclaimed := true } else f
     let f := if same && !noStealB K n (m.ctls x) then { f with steal := true } else f
-    let f := if same && n.any (fun r => decide (K.norm r ≠ r) && o.contains r) then { f with warm := true } else f
+    -- a rule the constructor normalises, reloaded as it was: only the flow warm-up calculator loses state by that
+    let f := if warmKey && same && n.any (fun r => decide (K.norm r ≠ r) && o.contains r) then { f with warm := true } else f
     (assoc acc.1 x f, assoc acc.2 x n)) (fl, raw)
 
 def doLoad (oracle : Bool) (s : St) (modl : String) (re : Bool) (only : Option Nat) (arg : String) : St × Option String :=
@@ -121,8 +123,8 @@ def doLoad (oracle : Bool) (s : St) (modl : String) (re : Bool) (only : Option N
     | some rules =>
       if !rules.all cbSupported then (s, some "bad-op") else
       let (fl, raw) := if oracle then
-          (if re then judgeReload cbCalc CbRule.valid (·.res) cbInert s.cb s.cbRaw rules only s.flags
-           else (s.flags, (judgeReload cbCalc CbRule.valid (·.res) cbInert s.cb s.cbRaw rules only s.flags).2))
+          (if re then judgeReload cbCalc CbRule.valid (·.res) cbInert false s.cb s.cbRaw rules only s.flags
+           else (s.flags, (judgeReload cbCalc CbRule.valid (·.res) cbInert false s.cb s.cbRaw rules only s.flags).2))
         else (s.flags, s.cbRaw)
       let m := match only with
         | none => s.cb.loadRules cbCalc CbRule.valid (·.res) s.now rules
@@ -134,8 +136,8 @@ def doLoad (oracle : Bool) (s : St) (modl : String) (re : Bool) (only : Option N
     | some rules =>
       if !rules.all flowSupported then (s, some "bad-op") else
       let (fl, raw) := if oracle then
-          (if re then judgeReload flowCalc FlowRule.valid (·.res) flowInert s.flow s.flowRaw rules only s.flags
-           else (s.flags, (judgeReload flowCalc FlowRule.valid (·.res) flowInert s.flow s.flowRaw rules only s.flags).2))
+          (if re then judgeReload flowCalc FlowRule.valid (·.res) flowInert true s.flow s.flowRaw rules only s.flags
+           else (s.flags, (judgeReload flowCalc FlowRule.valid (·.res) flowInert true s.flow s.flowRaw rules only s.flags).2))
         else (s.flags, s.flowRaw)
       let m := match only with
         | none => s.flow.loadRules flowCalc FlowRule.valid (·.res) s.now rules
@@ -147,8 +149,8 @@ def doLoad (oracle : Bool) (s : St) (modl : String) (re : Bool) (only : Option N
     | some rules =>
       if !rules.all hotSupported then (s, some "bad-op") else
       let (fl, raw) := if oracle then
-          (if re then judgeReload hotCalc HotRule.valid (·.res) hotInert s.hot s.hotRaw rules only s.flags
-           else (s.flags, (judgeReload hotCalc HotRule.valid (·.res) hotInert s.hot s.hotRaw rules only s.flags).2))
+          (if re then judgeReload hotCalc HotRule.valid (·.res) hotInert false s.hot s.hotRaw rules only s.flags
+           else (s.flags, (judgeReload hotCalc HotRule.valid (·.res) hotInert false s.hot s.hotRaw rules only s.flags).2))
         else (s.flags, s.hotRaw)
       let m := match only with
         | none => s.hot.loadRules hotCalc HotRule.valid (·.res) s.now rules
